@@ -7,6 +7,7 @@ import (
 	"os"
 	"os/user"
 	"path/filepath"
+	"slices"
 	"sort"
 	"strings"
 	"time"
@@ -141,6 +142,29 @@ func appendSnapshotPackages(b []byte, s *slip.Scope) []byte {
 		sort.Slice(defs, func(i, j int) bool {
 			return defs[i].Name < defs[j].Name
 		})
+		// A package has to exist before a package that uses it is defined.
+		ordered := make([]*slip.Package, 0, len(defs))
+		for len(ordered) < len(defs) {
+			before := len(ordered)
+		next:
+			for _, p := range defs {
+				if slices.Contains(ordered, p) {
+					continue
+				}
+				for _, u := range p.Uses {
+					if slices.Contains(defs, u) && !slices.Contains(ordered, u) {
+						continue next
+					}
+				}
+				ordered = append(ordered, p)
+			}
+			if before == len(ordered) { // a cycle, keep the order by name
+				break
+			}
+		}
+		if len(ordered) == len(defs) {
+			defs = ordered
+		}
 		for _, p := range defs {
 			form := slip.List{slip.Symbol("defpackage"), slip.String(p.Name)}
 			if 0 < len(p.Doc) {
